@@ -126,6 +126,9 @@ func (g *gen) errSpec() *ErrSpec {
 	}
 	e.Wraps = g.weighted(45, 35, 20)
 	e.Nested = r.Chance(15, 100)
+	if r.Chance(20, 100) || (e.Nested && r.Chance(50, 100)) {
+		e.Typed, e.TCode = true, r.Range(0, 9)
+	}
 	return e
 }
 
